@@ -8,6 +8,43 @@ import (
 )
 
 var _ = reg("C06_Pool", C06_Pool)
+var _ = reg("C06_Later", C06_Later)
+
+var laterPaths = []string{
+	"$[*] ? (@ > 1)", "$.* ? (@ > 1)", "$.keyvalue() ? (@.value > 1)", "$.keyvalue().value ? (@ > 1)", "$[*].keyvalue() ? (@.value > 1)",
+	"$.** ? (@ > 1)", "$[0, 1] ? (@ > 1)", "$[0 to 1].a", "$[*].a", "$.*.a", "$.**.a", "$[*] ? (exists(@.a))", "$.keyvalue().key ? (@ == \"b\")",
+	"$[*].a ? (@ > 1)", "$.a[*] ? (@ > 1)", "$[*] ? (@.a > 1).a", "-$[*] ? (@ < -1)", "$[*].double() ? (@ > 1)", "$[*][*] ? (@ > 1)",
+}
+
+// C06_Later: the answer is decided only by the second (or a later) item of
+// an iteration: documents with two elements / members, Exists and First
+// against Query.
+func C06_Later() {
+	src := modePrefix() + laterPaths[nd.Choice(len(laterPaths))]
+	doc := nd.JSON(nd.Spec{Kinds: nd.KFloat | nd.KArray | nd.KObject, Depth: 2, Width: 2, Keys: []string{"a", "b"}})
+	silent := nd.Choice(2) == 1
+	opts := []exec.Option{}
+	if silent {
+		opts = append(opts, exec.WithSilent())
+	}
+	p := parse(src)
+	q, qerr := p.Query(bg, doc)
+	ex, eerr := p.Exists(bg, doc, opts...)
+	tag := "C06/later " + src
+	if qerr == nil {
+		nd.Assert(eerr == nil, tag+"/Exists-errs-though-Query-succeeds")
+		if eerr == nil {
+			nd.Assert(ex == (len(q) > 0), tag+"/Exists-disagrees-with-Query")
+		}
+		f, ferr := p.First(bg, doc, opts...)
+		nd.Assert(ferr == nil, tag+"/First-errs-though-Query-succeeds")
+		if ferr == nil && len(q) == 0 {
+			nd.Assert(f == nil, tag+"/First-not-nil-on-empty")
+		}
+	} else if p.IsStrict() && isVerbose(qerr) {
+		nd.Assert(eerr != nil, tag+"/Exists-hides-strict-error")
+	}
+}
 
 // C06_Pool: the five entry points on identical inputs tell one story.
 func C06_Pool() {
